@@ -64,106 +64,140 @@ Proof.
   destruct (bytes_eqb first s_master_b) eqn:E; [apply list_eqb_N_spec in E; contradiction|discriminate].
 Qed.
 
-Lemma switch_all_inv c w st s m r st' : inv st -> switch_all c w st s m r = Ok st' -> inv st'.
-Proof.
-  intros I. unfold switch_all. destruct (sc_replica_only c).
-  - destruct r as [ra|]; [|discriminate]. apply switch_target_inv; [discriminate|exact I].
-  - destruct (sc_has_str c).
-    + destruct m as [ma|]; [|discriminate]. destruct r as [ra|]; [|discriminate].
-      destruct (switch_target w st ma true (SrcSentinel s)) as [st1| |] eqn:E1.
-      * destruct (switch_target w st1 ra false (SrcSentinel s)) as [st2| |] eqn:E2; try discriminate.
-        intro H; inversion H; subst. eapply switch_target_inv; [|eapply switch_target_inv; [|exact I|exact E1]|exact E2]; discriminate.
-      * destruct (switch_target w st ra false (SrcSentinel s)); discriminate.
-      * discriminate.
-    + destruct m as [ma|]; [|discriminate]. apply switch_target_inv; [discriminate|exact I].
-Qed.
+Lemma bindr {A B} (r : result A) (f : A -> result B) y : bind r f = Ok y -> exists x, r = Ok x /\ f x = Ok y.
+Proof. destruct r; cbn; [eauto|discriminate|discriminate]. Qed.
 
-Lemma switch_all_partial_inv c w st s m r : inv st -> inv (switch_all_partial c w st s m r).
-Proof.
-  intros I. unfold switch_all_partial. destruct (sc_replica_only c); [exact I|]. destruct (sc_has_str c); [|exact I].
-  destruct m as [ma|]; [|exact I]. destruct r as [ra|]; [|exact I].
-  set (st1 := match switch_target w st ma true (SrcSentinel s) with Ok x => x | _ => st end).
-  assert (I1 : inv st1).
-  { unfold st1. destruct (switch_target w st ma true (SrcSentinel s)) eqn:E; try exact I.
-    eapply switch_target_inv; [|exact I|exact E]. discriminate. }
-  destruct (switch_target w st1 ra false (SrcSentinel s)) eqn:E; try exact I1.
-  eapply switch_target_inv; [|exact I1|exact E]. discriminate.
-Qed.
+(** ---- predicates preserved by the whole machinery under one world ---- *)
+Section Pres.
+  Variable w : world.
+  Variable P : sstate -> Prop.
+  Hypothesis P_list : forall st l, P st -> P (set_list st l).
+  Hypothesis P_saddr : forall st a, P st -> P (set_saddr st a).
+  Hypothesis P_switch : forall st a im src st', src <> SrcNone -> P st -> switch_target w st a im src = Ok st' -> P st'.
+  Hypothesis P_fail : forall st a im, P st -> P (switch_fail w st a im).
 
-Lemma refresh_loop_inv c w head : forall fuel st last st' o,
-  inv st -> refresh_loop fuel c w st head last = Ok (st', o) -> inv st'.
+  Lemma switch_or_fail_pres st a im src : src <> SrcNone -> P st -> P (switch_or_fail w st a im src).
+  Proof.
+    intros Hs I. unfold switch_or_fail. destruct (switch_target w st a im src) eqn:E; [eapply P_switch; eauto| |]; now apply P_fail.
+  Qed.
+
+  Lemma switch_all_pres c st s m r st' : P st -> switch_all c w st s m r = Ok st' -> P st'.
+  Proof.
+    intros I. unfold switch_all. destruct (sc_replica_only c).
+    - destruct r as [ra|]; [|discriminate]. apply P_switch; [discriminate|exact I].
+    - destruct (sc_has_str c).
+      + destruct m as [ma|]; [|discriminate]. destruct r as [ra|]; [|discriminate].
+        destruct (switch_target w st ma true (SrcSentinel s)) as [st1| |] eqn:E1.
+        * destruct (switch_target w st1 ra false (SrcSentinel s)) as [st2| |] eqn:E2; try discriminate.
+          intro H; inversion H; subst. eapply P_switch; [|eapply P_switch; [|exact I|exact E1]|exact E2]; discriminate.
+        * destruct (switch_target w st ra false (SrcSentinel s)); discriminate.
+        * discriminate.
+      + destruct m as [ma|]; [|discriminate]. apply P_switch; [discriminate|exact I].
+  Qed.
+
+  Lemma switch_all_partial_pres c st s m r : P st -> P (switch_all_partial c w st s m r).
+  Proof.
+    intros I. unfold switch_all_partial. destruct (sc_replica_only c).
+    - destruct r as [ra|]; [|exact I]. apply switch_or_fail_pres; [discriminate|exact I].
+    - destruct (sc_has_str c).
+      + destruct m as [ma|]; [|exact I]. destruct r as [ra|]; [|exact I].
+        apply switch_or_fail_pres; [discriminate|]. apply switch_or_fail_pres; [discriminate|exact I].
+      + destruct m as [ma|]; [|exact I]. apply switch_or_fail_pres; [discriminate|exact I].
+  Qed.
+
+  Lemma refresh_loop_pres c head : forall fuel st last st' o,
+    P st -> refresh_loop fuel c w st head last = Ok (st', o) -> P st'.
+  Proof.
+    induction fuel as [|f IH]; intros st last st' o I H.
+    - cbn in H. inversion H; subst. exact I.
+    - cbn [refresh_loop] in H. destruct (ss_list st) as [|s l] eqn:El; [inversion H; subst; exact I|].
+      assert (I1 : P (set_saddr st s)) by now apply P_saddr.
+      assert (Hcont : forall st2 e, P st2 ->
+                (let l' := move_to_back (ss_list st2) s in
+                 let st3 := set_list st2 l' in
+                 match l' with
+                 | x :: _ => if saddr_eqb x head then Ok (st3, RFail e) else refresh_loop f c w st3 head e
+                 | [] => Ok (st3, RFail e)
+                 end) = Ok (st', o) -> P st').
+      { intros st2 e I2 E. cbv zeta in E.
+        destruct (move_to_back (ss_list st2) s) as [|x r] eqn:Em.
+        - inversion E; subst. now apply P_list.
+        - destruct (saddr_eqb x head).
+          + inversion E; subst. now apply P_list.
+          + eapply IH; [|exact E]. now apply P_list. }
+      destruct (w_sup w s); cbn [negb] in H.
+      + destruct (list_watch c w s) as [[[m r] others]| |] eqn:Lw; [|eapply Hcont; [exact I1|exact H]|discriminate].
+        set (st2 := set_list (set_saddr st s) (fold_left add_sentinel others (ss_list (set_saddr st s)))) in *.
+        assert (I2 : P st2) by (apply P_list; exact I1).
+        destruct (switch_all c w st2 s m r) as [st3| |] eqn:Sw.
+        * inversion H; subst. eapply switch_all_pres; eauto.
+        * eapply Hcont; [|exact H]. now apply switch_all_partial_pres.
+        * discriminate.
+      + eapply Hcont; [exact I1|exact H].
+  Qed.
+
+  Lemma refresh_pres fuel c st st' o : P st -> refresh fuel c w st = Ok (st', o) -> P st'.
+  Proof.
+    intros I. unfold refresh. destruct (ss_list st) as [|h l]; [intro H; inversion H; subst; exact I|].
+    now apply refresh_loop_pres.
+  Qed.
+
+  Lemma refresh_retry_pres fuel c : forall n st st', P st -> refresh_retry n fuel c w st = Ok st' -> P st'.
+  Proof.
+    induction n as [|n IH]; intros st st' I H; cbn [refresh_retry] in H; [inversion H; subst; exact I|].
+    destruct (refresh fuel c w st) as [[st1 o]| |] eqn:R; try discriminate.
+    pose proof (refresh_pres _ _ _ _ _ I R) as I1. destruct o; [inversion H; subst; exact I1| |]; eapply IH; eauto.
+  Qed.
+
+  Lemma handle_event_pres n fuel c st ev st' : P st -> handle_event n fuel c w st ev = Ok st' -> P st'.
+  Proof.
+    intros I. destruct ev as [m|m|m|m]; cbn [handle_event].
+    - intro H. apply bindr in H. destruct H as [h [_ H]]. apply bindr in H. destruct H as [p [_ H]].
+      inversion H; subst. now apply P_list.
+    - intro H. apply bindr in H. destruct H as [m0 [_ H]]. destruct (bytes_eqb m0 (sc_set c)); [|inversion H; subst; exact I].
+      apply bindr in H. destruct H as [h [_ H]]. apply bindr in H. destruct H as [p [_ H]].
+      destruct (switch_target w st (h, p) true SrcEvent) eqn:E; [inversion H; subst| |discriminate].
+      + eapply P_switch; [|exact I|exact E]. discriminate.
+      + eapply refresh_retry_pres; [|exact H]. now apply P_fail.
+    - intro H. apply bindr in H. destruct H as [m0 [_ H]].
+      assert (Hrep : forall X, (if uses_replica c && bytes_eqb m0 s_slave_b
+                                then do m5 <- part m 5; if bytes_eqb m5 (sc_set c) then refresh_retry n fuel c w st else Ok st
+                                else Ok st) = Ok X -> P X).
+      { intros X E. destruct (uses_replica c && bytes_eqb m0 s_slave_b); [|inversion E; subst; exact I].
+        apply bindr in E. destruct E as [m5 [_ E]]. destruct (bytes_eqb m5 (sc_set c)); [|inversion E; subst; exact I].
+        eapply refresh_retry_pres; eauto. }
+      destruct (bytes_eqb m0 s_master_b); [|now apply Hrep].
+      apply bindr in H. destruct H as [m1 [_ H]]. destruct (bytes_eqb m1 (sc_set c)); [|now apply Hrep].
+      apply bindr in H. destruct H as [h [_ H]]. apply bindr in H. destruct H as [p [_ H]].
+      destruct (switch_target w st (h, p) true SrcEvent) eqn:E; [inversion H; subst| |discriminate].
+      + eapply P_switch; [|exact I|exact E]. discriminate.
+      + eapply refresh_retry_pres; [|exact H]. now apply P_fail.
+    - destruct (uses_replica c); [|intro H; inversion H; subst; exact I].
+      intro H. apply bindr in H. destruct H as [m0 [_ H]]. destruct (bytes_eqb m0 s_slave_b); [|inversion H; subst; exact I].
+      apply bindr in H. destruct H as [m5 [_ H]]. destruct (bytes_eqb m5 (sc_set c)); [|inversion H; subst; exact I].
+      eapply refresh_retry_pres; eauto.
+  Qed.
+End Pres.
+
+(** [inv] is such a predicate, under every world *)
+Lemma inv_switch_fail w st a im : inv st -> inv (switch_fail w st a im).
 Proof.
-  induction fuel as [|f IH]; intros st last st' o I H.
-  - cbn in H. inversion H; subst. exact I.
-  - cbn [refresh_loop] in H. destruct (ss_list st) as [|s l] eqn:El; [inversion H; subst; exact I|].
-    assert (I1 : inv (set_saddr st s)) by now apply inv_set_saddr.
-    assert (Hcont : forall st2 e, inv st2 ->
-              (let l' := move_to_back (ss_list st2) s in
-               let st3 := set_list st2 l' in
-               match l' with
-               | x :: _ => if saddr_eqb x head then Ok (st3, RFail e) else refresh_loop f c w st3 head e
-               | [] => Ok (st3, RFail e)
-               end) = Ok (st', o) -> inv st').
-    { intros st2 e I2 E. cbv zeta in E.
-      destruct (move_to_back (ss_list st2) s) as [|x r] eqn:Em.
-      - inversion E; subst. now apply inv_set_list.
-      - destruct (saddr_eqb x head).
-        + inversion E; subst. now apply inv_set_list.
-        + eapply IH; [|exact E]. now apply inv_set_list. }
-    destruct (w_sup w s); cbn [negb] in H.
-    + destruct (list_watch c w s) as [[[m r] others]| |] eqn:Lw; [|eapply Hcont; [exact I1|exact H]|discriminate].
-      set (st2 := set_list (set_saddr st s) (fold_left add_sentinel others (ss_list (set_saddr st s)))) in *.
-      assert (I2 : inv st2) by (apply inv_set_list; exact I1).
-      destruct (switch_all c w st2 s m r) as [st3| |] eqn:Sw.
-      * inversion H; subst. eapply switch_all_inv; eauto.
-      * eapply Hcont; [|exact H]. now apply switch_all_partial_inv.
-      * discriminate.
-    + eapply Hcont; [exact I1|exact H].
+  intros I. unfold switch_fail. destruct (target_of w st a im); [|exact I].
+  unfold close_installed. destruct im; exact I.
 Qed.
 
 Lemma refresh_inv fuel c w st st' o : inv st -> refresh fuel c w st = Ok (st', o) -> inv st'.
 Proof.
-  intros I. unfold refresh. destruct (ss_list st) as [|h l]; [intro H; inversion H; subst; exact I|].
-  now apply refresh_loop_inv.
+  apply (refresh_pres w inv inv_set_list inv_set_saddr).
+  - intros. eapply switch_target_inv; eauto.
+  - intros. now apply inv_switch_fail.
 Qed.
-
-Lemma refresh_retry_inv fuel c w : forall n st st', inv st -> refresh_retry n fuel c w st = Ok st' -> inv st'.
-Proof.
-  induction n as [|n IH]; intros st st' I H; cbn [refresh_retry] in H; [inversion H; subst; exact I|].
-  destruct (refresh fuel c w st) as [[st1 o]| |] eqn:R; try discriminate.
-  pose proof (refresh_inv _ _ _ _ _ _ I R) as I1. destruct o; [inversion H; subst; exact I1| |]; eapply IH; eauto.
-Qed.
-
-Lemma bindr {A B} (r : result A) (f : A -> result B) y : bind r f = Ok y -> exists x, r = Ok x /\ f x = Ok y.
-Proof. destruct r; cbn; [eauto|discriminate|discriminate]. Qed.
 
 Lemma handle_event_inv n fuel c w st ev st' : inv st -> handle_event n fuel c w st ev = Ok st' -> inv st'.
 Proof.
-  intros I. destruct ev as [m|m|m|m]; cbn [handle_event].
-  - intro H. apply bindr in H. destruct H as [h [_ H]]. apply bindr in H. destruct H as [p [_ H]].
-    inversion H; subst. now apply inv_set_list.
-  - intro H. apply bindr in H. destruct H as [m0 [_ H]]. destruct (bytes_eqb m0 (sc_set c)); [|inversion H; subst; exact I].
-    apply bindr in H. destruct H as [h [_ H]]. apply bindr in H. destruct H as [p [_ H]].
-    destruct (switch_target w st (h, p) true SrcEvent) eqn:E; [inversion H; subst| |discriminate].
-    + eapply switch_target_inv; [|exact I|exact E]. discriminate.
-    + eapply refresh_retry_inv; eauto.
-  - intro H. apply bindr in H. destruct H as [m0 [_ H]].
-    assert (Hrep : forall X, (if uses_replica c && bytes_eqb m0 s_slave_b
-                              then do m5 <- part m 5; if bytes_eqb m5 (sc_set c) then refresh_retry n fuel c w st else Ok st
-                              else Ok st) = Ok X -> inv X).
-    { intros X E. destruct (uses_replica c && bytes_eqb m0 s_slave_b); [|inversion E; subst; exact I].
-      apply bindr in E. destruct E as [m5 [_ E]]. destruct (bytes_eqb m5 (sc_set c)); [|inversion E; subst; exact I].
-      eapply refresh_retry_inv; eauto. }
-    destruct (bytes_eqb m0 s_master_b); [|now apply Hrep].
-    apply bindr in H. destruct H as [m1 [_ H]]. destruct (bytes_eqb m1 (sc_set c)); [|now apply Hrep].
-    apply bindr in H. destruct H as [h [_ H]]. apply bindr in H. destruct H as [p [_ H]].
-    destruct (switch_target w st (h, p) true SrcEvent) eqn:E; [inversion H; subst| |discriminate].
-    + eapply switch_target_inv; [|exact I|exact E]. discriminate.
-    + eapply refresh_retry_inv; eauto.
-  - destruct (uses_replica c); [|intro H; inversion H; subst; exact I].
-    intro H. apply bindr in H. destruct H as [m0 [_ H]]. destruct (bytes_eqb m0 s_slave_b); [|inversion H; subst; exact I].
-    apply bindr in H. destruct H as [m5 [_ H]]. destruct (bytes_eqb m5 (sc_set c)); [|inversion H; subst; exact I].
-    eapply refresh_retry_inv; eauto.
+  apply (handle_event_pres w inv inv_set_list inv_set_saddr).
+  - intros. eapply switch_target_inv; eauto.
+  - intros. now apply inv_switch_fail.
 Qed.
 
 Theorem srun_inv n fuel c : forall ops st st', inv st -> srun n fuel c st ops = Ok st' -> inv st'.
@@ -173,6 +207,202 @@ Proof.
   eapply IH; [|exact H]. destruct op as [w|w ev]; cbn [sstep] in S.
   - destruct (refresh fuel c w st) as [[x o]| |] eqn:R; try discriminate. inversion S; subst. eapply refresh_inv; eauto.
   - eapply handle_event_inv; eauto.
+Qed.
+
+(** ---- reused vs fresh targets: what user traffic can reach ---- *)
+Definition role_b (is_master : bool) : bytes := if is_master then s_master_b else s_slave_b.
+
+(** whenever master (replica) traffic can arrive somewhere, that node is reachable and answers ROLE with
+    "master" ("slave") in the world [w] *)
+Definition live_m_ok (w : world) (st : sstate) : Prop :=
+  live_m st = None \/ exists a rest, live_m st = Some a /\ w_nup w a = true /\ w_role w a = RoleArr (s_master_b :: rest).
+Definition live_r_ok (w : world) (st : sstate) : Prop :=
+  live_r st = None \/ exists a rest, live_r st = Some a /\ w_nup w a = true /\ w_role w a = RoleArr (s_slave_b :: rest).
+
+Lemma switch_target_live w st a is_master src st' :
+  switch_target w st a is_master src = Ok st' ->
+  w_nup w a = true /\ exists rest, w_role w a = RoleArr (role_b is_master :: rest) /\
+  if is_master then live_m st' = Some a /\ live_r st' = live_r st else live_r st' = Some a /\ live_m st' = live_m st.
+Proof.
+  unfold switch_target. destruct (w_nup w a); cbn [negb]; [|discriminate].
+  destruct (w_role w a) as [|items]; [discriminate|]. destruct items as [|first rest]; [discriminate|].
+  destruct is_master.
+  - destruct (bytes_eqb first s_master_b) eqn:E; [|discriminate]. apply list_eqb_N_spec in E. subst first.
+    intro H; inversion H; subst. split; [reflexivity|]. exists rest. split; [reflexivity|]. split; reflexivity.
+  - destruct (bytes_eqb first s_slave_b) eqn:E; [|discriminate]. apply list_eqb_N_spec in E. subst first.
+    intro H; inversion H; subst. split; [reflexivity|]. exists rest. split; [reflexivity|]. split; reflexivity.
+Qed.
+
+(** a failed switch: on the reuse path the installed connection is closed, on the fresh path nothing changes *)
+Lemma switch_fail_reused w st a is_master :
+  target_of w st a is_master = TReused ->
+  (if is_master then live_m (switch_fail w st a true) = None /\ live_r (switch_fail w st a true) = live_r st
+   else live_r (switch_fail w st a false) = None /\ live_m (switch_fail w st a false) = live_m st) /\
+  ss_m (switch_fail w st a is_master) = ss_m st /\ ss_r (switch_fail w st a is_master) = ss_r st /\
+  ss_list (switch_fail w st a is_master) = ss_list st.
+Proof.
+  intro T. destruct is_master; unfold switch_fail; rewrite T; cbn; repeat split.
+Qed.
+
+Lemma switch_fail_fresh w st a is_master : target_of w st a is_master = TFresh -> switch_fail w st a is_master = st.
+Proof. intro T. unfold switch_fail. now rewrite T. Qed.
+
+Lemma target_of_current_master w st a :
+  ss_m st = Some a -> ss_m_open st = true -> w_nup w a = true -> target_of w st a true = TReused.
+Proof.
+  intros Hm Ho Hu. unfold target_of. rewrite Hm, Ho, Hu. cbn [osaddr_is].
+  assert (saddr_eqb a a = true) as -> by (now apply saddr_eqb_spec). reflexivity.
+Qed.
+Lemma target_of_current_replica w st a :
+  ss_r st = Some a -> ss_r_open st = true -> w_nup w a = true -> target_of w st a false = TReused.
+Proof.
+  intros Hm Ho Hu. unfold target_of. rewrite Hm, Ho, Hu. cbn [osaddr_is].
+  assert (saddr_eqb a a = true) as -> by (now apply saddr_eqb_spec). reflexivity.
+Qed.
+
+(** after a failed switch to the address the master traffic currently uses, no master traffic flows *)
+Lemma switch_fail_current_master w st a : ss_m st = Some a -> w_nup w a = true -> live_m (switch_fail w st a true) = None.
+Proof.
+  intros Hm Hu. destruct (ss_m_open st) eqn:Ho.
+  - pose proof (switch_fail_reused w st a true (target_of_current_master _ _ _ Hm Ho Hu)) as [[X _] _]. exact X.
+  - unfold switch_fail. destruct (target_of w st a true); unfold live_m; cbn; [reflexivity|now rewrite Ho].
+Qed.
+Lemma switch_fail_current_replica w st a : ss_r st = Some a -> w_nup w a = true -> live_r (switch_fail w st a false) = None.
+Proof.
+  intros Hm Hu. destruct (ss_r_open st) eqn:Ho.
+  - pose proof (switch_fail_reused w st a false (target_of_current_replica _ _ _ Hm Ho Hu)) as [[X _] _]. exact X.
+  - unfold switch_fail. destruct (target_of w st a false); unfold live_r; cbn; [reflexivity|now rewrite Ho].
+Qed.
+
+Lemma live_m_ok_list w st l : live_m_ok w st -> live_m_ok w (set_list st l).
+Proof. exact (fun H => H). Qed.
+Lemma live_m_ok_saddr w st a : live_m_ok w st -> live_m_ok w (set_saddr st a).
+Proof. exact (fun H => H). Qed.
+Lemma live_r_ok_list w st l : live_r_ok w st -> live_r_ok w (set_list st l).
+Proof. exact (fun H => H). Qed.
+Lemma live_r_ok_saddr w st a : live_r_ok w st -> live_r_ok w (set_saddr st a).
+Proof. exact (fun H => H). Qed.
+
+Lemma live_m_ok_switch w st a im src st' : live_m_ok w st -> switch_target w st a im src = Ok st' -> live_m_ok w st'.
+Proof.
+  intros I H. destruct (switch_target_live _ _ _ _ _ _ H) as [Hu [rest [Hr X]]]. destruct im.
+  - destruct X as [X _]. right. exists a, rest. auto.
+  - destruct X as [_ X]. unfold live_m_ok. rewrite X. exact I.
+Qed.
+Lemma live_r_ok_switch w st a im src st' : live_r_ok w st -> switch_target w st a im src = Ok st' -> live_r_ok w st'.
+Proof.
+  intros I H. destruct (switch_target_live _ _ _ _ _ _ H) as [Hu [rest [Hr X]]]. destruct im.
+  - destruct X as [_ X]. unfold live_r_ok. rewrite X. exact I.
+  - destruct X as [X _]. right. exists a, rest. auto.
+Qed.
+
+Lemma live_m_ok_fail w st a im : live_m_ok w st -> live_m_ok w (switch_fail w st a im).
+Proof.
+  intros I. destruct (target_of w st a im) eqn:T; [|now rewrite (switch_fail_fresh _ _ _ _ T)].
+  destruct (switch_fail_reused _ _ _ _ T) as [X _]. destruct im.
+  - left. exact (proj1 X).
+  - unfold live_m_ok. rewrite (proj2 X). exact I.
+Qed.
+Lemma live_r_ok_fail w st a im : live_r_ok w st -> live_r_ok w (switch_fail w st a im).
+Proof.
+  intros I. destruct (target_of w st a im) eqn:T; [|now rewrite (switch_fail_fresh _ _ _ _ T)].
+  destruct (switch_fail_reused _ _ _ _ T) as [X _]. destruct im.
+  - unfold live_r_ok. rewrite (proj2 X). exact I.
+  - left. exact (proj1 X).
+Qed.
+
+Lemma refresh_live_m fuel c w st st' o : live_m_ok w st -> refresh fuel c w st = Ok (st', o) -> live_m_ok w st'.
+Proof.
+  apply (refresh_pres w (live_m_ok w) (live_m_ok_list w) (live_m_ok_saddr w)).
+  - intros. eapply live_m_ok_switch; eauto.
+  - intros. now apply live_m_ok_fail.
+Qed.
+Lemma refresh_live_r fuel c w st st' o : live_r_ok w st -> refresh fuel c w st = Ok (st', o) -> live_r_ok w st'.
+Proof.
+  apply (refresh_pres w (live_r_ok w) (live_r_ok_list w) (live_r_ok_saddr w)).
+  - intros. eapply live_r_ok_switch; eauto.
+  - intros. now apply live_r_ok_fail.
+Qed.
+Lemma handle_event_live_m n fuel c w st ev st' : live_m_ok w st -> handle_event n fuel c w st ev = Ok st' -> live_m_ok w st'.
+Proof.
+  apply (handle_event_pres w (live_m_ok w) (live_m_ok_list w) (live_m_ok_saddr w)).
+  - intros. eapply live_m_ok_switch; eauto.
+  - intros. now apply live_m_ok_fail.
+Qed.
+Lemma handle_event_live_r n fuel c w st ev st' : live_r_ok w st -> handle_event n fuel c w st ev = Ok st' -> live_r_ok w st'.
+Proof.
+  apply (handle_event_pres w (live_r_ok w) (live_r_ok_list w) (live_r_ok_saddr w)).
+  - intros. eapply live_r_ok_switch; eauto.
+  - intros. now apply live_r_ok_fail.
+Qed.
+Lemma refresh_retry_live_m fuel c w n st st' : live_m_ok w st -> refresh_retry n fuel c w st = Ok st' -> live_m_ok w st'.
+Proof.
+  apply (refresh_retry_pres w (live_m_ok w) (live_m_ok_list w) (live_m_ok_saddr w)).
+  - intros. eapply live_m_ok_switch; eauto.
+  - intros. now apply live_m_ok_fail.
+Qed.
+
+(** a node that answers with the wrong role is not where master traffic can arrive *)
+Lemma live_m_ok_wrong_role w st a first rest :
+  live_m_ok w st -> w_role w a = RoleArr (first :: rest) -> first <> s_master_b -> live_m st <> Some a.
+Proof.
+  intros [H|[b [r [H [_ Hr]]]]] Hw Hn E; [congruence|]. rewrite H in E. inversion E; subst b. rewrite Hw in Hr. inversion Hr. contradiction.
+Qed.
+
+(** +switch-master / +reboot master naming the address master traffic currently uses, whose node now answers
+    with another role: afterwards master traffic reaches that node no more; wherever it can arrive answered
+    "master" in that world *)
+Lemma handle_switch_master_same_demoted n fuel c w st old_h old_p h p tail first rest st' :
+  ss_m st = Some (h, p) -> w_nup w (h, p) = true -> w_role w (h, p) = RoleArr (first :: rest) -> first <> s_master_b ->
+  handle_event n fuel c w st (EvSwitchMaster (sc_set c :: old_h :: old_p :: h :: p :: tail)) = Ok st' ->
+  live_m_ok w st' /\ live_m st' <> Some (h, p).
+Proof.
+  intros Hm Hu Hr Hn H. cbn [handle_event part idx nth_error bind] in H.
+  assert (bytes_eqb (sc_set c) (sc_set c) = true) as E by (now apply list_eqb_N_spec). rewrite E in H.
+  assert (S : switch_target w st (h, p) true SrcEvent = Err 3).
+  { unfold switch_target. rewrite Hu, Hr. cbn [negb].
+    destruct (bytes_eqb first s_master_b) eqn:B; [apply list_eqb_N_spec in B; contradiction|reflexivity]. }
+  rewrite S in H.
+  assert (L : live_m_ok w st').
+  { eapply refresh_retry_live_m; [|exact H]. left. now apply switch_fail_current_master. }
+  split; [exact L|]. eapply live_m_ok_wrong_role; eauto.
+Qed.
+
+Lemma handle_reboot_master_same_demoted n fuel c w st h p tail first rest st' :
+  ss_m st = Some (h, p) -> w_nup w (h, p) = true -> w_role w (h, p) = RoleArr (first :: rest) -> first <> s_master_b ->
+  handle_event n fuel c w st (EvReboot (s_master_b :: sc_set c :: h :: p :: tail)) = Ok st' ->
+  live_m_ok w st' /\ live_m st' <> Some (h, p).
+Proof.
+  intros Hm Hu Hr Hn H. cbn [handle_event part idx nth_error bind] in H.
+  assert (bytes_eqb s_master_b s_master_b = true) as E0 by reflexivity. rewrite E0 in H.
+  assert (bytes_eqb (sc_set c) (sc_set c) = true) as E by (now apply list_eqb_N_spec). rewrite E in H.
+  assert (S : switch_target w st (h, p) true SrcEvent = Err 3).
+  { unfold switch_target. rewrite Hu, Hr. cbn [negb].
+    destruct (bytes_eqb first s_master_b) eqn:B; [apply list_eqb_N_spec in B; contradiction|reflexivity]. }
+  rewrite S in H.
+  assert (L : live_m_ok w st').
+  { eapply refresh_retry_live_m; [|exact H]. left. now apply switch_fail_current_master. }
+  split; [exact L|]. eapply live_m_ok_wrong_role; eauto.
+Qed.
+
+(** the refresh after a dropped subscription: when the switch to the address the answering sentinel names fails
+    and that address is the one in use, the loop goes on with the installed connection closed *)
+Lemma switch_all_partial_current_master c w st s a r e :
+  sc_replica_only c = false -> (sc_has_str c = true -> r <> None) -> ss_m st = Some a -> w_nup w a = true ->
+  switch_target w st a true (SrcSentinel s) = Err e ->
+  live_m (switch_all_partial c w st s (Some a) r) = None.
+Proof.
+  intros Hr Hs Hm Hu S. unfold switch_all_partial. rewrite Hr.
+  assert (X : live_m (switch_or_fail w st a true (SrcSentinel s)) = None).
+  { unfold switch_or_fail. rewrite S. now apply switch_fail_current_master. }
+  destruct (sc_has_str c); [|exact X]. destruct r as [ra|]; [|exfalso; now apply Hs].
+  set (st1 := switch_or_fail w st a true (SrcSentinel s)) in *.
+  assert (F : live_m (switch_fail w st1 ra false) = None).
+  { destruct (target_of w st1 ra false) eqn:T.
+    - destruct (switch_fail_reused _ _ _ _ T) as [[_ Y] _]. now rewrite Y.
+    - now rewrite (switch_fail_fresh _ _ _ _ T). }
+  unfold switch_or_fail at 1. destruct (switch_target w st1 ra false (SrcSentinel s)) eqn:E2; try exact F.
+  destruct (switch_target_live _ _ _ _ _ _ E2) as [_ [_ [_ [_ Y]]]]. now rewrite Y.
 Qed.
 
 (** a successful refresh leaves a master that the succeeding sentinel named and that answered "master" *)
